@@ -147,7 +147,7 @@ func (r *vRun) hostileJSONCases() {
 					if err == nil && n%3 == 0 {
 						r.jsonDecodeCase(pr.sg, doc, "hostile-"+tk.what) // fixed point of what was accepted
 					}
-					if tk.twoSided && len(doc) < 1500 && (f.ty != vtScalar || f.skind == "SEnum" || n%2 == 0) {
+					if tk.twoSided && len(doc) < 1500 && (f.ty != vtScalar || f.skind == "SEnum" || n%3 == 0) {
 						parsed, perr := vParseJSON(doc)
 						if perr != nil {
 							continue
@@ -256,7 +256,7 @@ func (r *vRun) hostilePBCases() {
 					continue
 				}
 				// every id token is a correspondence case; of the uniform ones (wire types, cuts) one in three
-				asCase := f.ty == vtID || n%3 == 0
+				asCase := f.ty == vtID || n%5 == 0
 				if err != nil {
 					if asCase {
 						r.caseOut(false, term0)
@@ -278,6 +278,62 @@ func (r *vRun) hostilePBCases() {
 					r.out.Oracle("decode-fixpoint", term0, fmt.Sprintf("%s: Marshal(Unmarshal(b)) does not decode: %v", tk.what, e2))
 				} else if b2, e3 := vMarshal(reflect.ValueOf(y).Interface().(vPB)); e3 != nil || string(b2) != string(b1) {
 					r.out.Oracle("decode-fixpoint", term0, fmt.Sprintf("%s: re-encoding is not a fixed point (err=%v)", tk.what, e3))
+				}
+			}
+		}
+	}
+	// lengths at the edge of the int range, for an UNKNOWN field that sits at a non-zero offset of its message
+	// (after another unknown field), and for every message: the generated decoders add such a length to the
+	// current offset in several places (skip of unknown fields, postIndex of known ones) and must detect the
+	// overflow — "offset + length" wraps to a negative number only when the length is within `offset` of MaxInt64
+	for _, m := range order {
+		p := paths[m]
+		root := r.s.byType[p.sg.req]
+		sg := p.sg
+		unk := uint64(99)
+		for m.fieldByNum(unk) != nil {
+			unk += 101
+		}
+		for _, pre := range []int{1, 3, 9} { // how many 2-byte unknown varint fields precede: offsets 2, 6, 18
+			var prefix []byte
+			for i := 0; i < pre; i++ {
+				prefix = vAppendVarint(vAppendVarint(prefix, unk<<3|0), 1)
+			}
+			for d := uint64(0); d <= 24; d++ {
+				for _, wt2 := range []bool{true, false} {
+					leaf := append([]byte(nil), prefix...)
+					what := "pb-unknown-length-near-maxint64"
+					if wt2 {
+						leaf = vAppendVarint(vAppendVarint(leaf, unk<<3|2), uint64(1<<63-1)-d)
+					} else { // the same length on the first length-delimited KNOWN field of the message, if any
+						var kf *vField
+						for _, f := range m.fields {
+							if f.num != 1000 && (f.ty != vtScalar || f.card == vcPacked) {
+								kf = f
+								break
+							}
+						}
+						if kf == nil {
+							continue
+						}
+						what = "pb-known-length-near-maxint64"
+						leaf = vAppendVarint(vAppendVarint(leaf, uint64(kf.num)<<3|2), uint64(1<<63-1)-d)
+					}
+					b := vWrapPB(p.hops, leaf)
+					n++
+					r.hist["hostile_"+what]++
+					term0 := vCaseTerm(7, root.id, "VNone", b, 0)
+					vCur.term = term0
+					var err error
+					if !vGuard(r.out, sg.name+" UnmarshalX("+what+" in "+m.name+")", term0, func() { _, err = sg.unmarshalPB(b) }) {
+						continue
+					}
+					if err == nil {
+						r.out.Oracle("decode-fixpoint", term0, fmt.Sprintf("%s in %s: an input whose declared length runs (far) past the end is accepted", what, m.name))
+					}
+					if d == 0 && pre == 3 {
+						r.caseOut(false, term0) // two-sided: the model rejects as well
+					}
 				}
 			}
 		}
